@@ -201,8 +201,10 @@ void disasm_module_to_file(const NvmModule *mod, FILE *out) {
         if (s) {
             fprintf(out, ".string \"");
             /* Escape special characters */
-            for (const char *p = s; *p; p++) {
+            for (uint32_t k = 0; k < mod->string_lengths[i]; k++) {
+                const char *p = s + k;
                 switch (*p) {
+                    case '\0': fprintf(out, "\\0"); break;
                     case '\n': fprintf(out, "\\n"); break;
                     case '\t': fprintf(out, "\\t"); break;
                     case '\\': fprintf(out, "\\\\"); break;
